@@ -1018,3 +1018,102 @@ func ruleR133(c *Ctx) {
 		c.Undecided(key, token.NoPos, "ReplaceMap.createFlat not found")
 	}
 }
+
+// ---------------------------------------------------------------------------
+// R13.4 the methods of a map stay reachable.
+//
+// v.name(args) on a map calls the closure stored under name *if there is one*,
+// otherwise the method name of the map type (size, list, get, isAvail, ...).
+// In the code generated for a method call, every return inside the branch
+// taken for maps has to be guarded by the successful extraction of a function
+// from the entry (ExtractFunction … ok): a return on the path "the entry
+// exists but is no function" makes {size: 3, other: 2}.size() fail, so the
+// observers of a map depend on the names of its keys.
+
+func ruleR134(c *Ctx) {
+	a := c.genAnchors()
+	if len(a.missing) > 0 {
+		c.Undecided(strings.Join(a.missing, ","), token.NoPos, "anchors not found")
+		return
+	}
+	info := a.fg.TypesInfo
+	extract := LookupMethod(a.fg, "FunctionGenerator", "ExtractFunction")
+	if extract == nil {
+		c.Undecided("funcGen.FunctionGenerator.ExtractFunction", token.NoPos, "not found")
+		return
+	}
+	n := 0
+	fwd := c.forwarders(a)
+	for _, gi := range c.generatorFuncs(a, fwd) {
+		if gi.pkg != a.fg {
+			continue
+		}
+		gname := declName(gi.pkg, gi.decl)
+		ast.Inspect(gi.decl.Body, func(x ast.Node) bool {
+			ifs, ok := x.(*ast.IfStmt)
+			if !ok {
+				return true
+			}
+			// the branch for maps: its condition calls IsMap of the map handler
+			if !containsNode(ifs.Cond, func(y ast.Node) bool {
+				call, ok := y.(*ast.CallExpr)
+				if !ok {
+					return false
+				}
+				sel, ok := ast.Unparen(call.Fun).(*ast.SelectorExpr)
+				return ok && sel.Sel.Name == "IsMap"
+			}) {
+				return true
+			}
+			// only the method call form: the branch contains an ExtractFunction call
+			if !containsNode(ifs.Body, func(y ast.Node) bool {
+				call, ok := y.(*ast.CallExpr)
+				return ok && isCallTo(info, call, extract)
+			}) {
+				return true
+			}
+			lit := c.EnclosingFunc(ifs)
+			g := c.CFG(lit)
+			if g == nil {
+				return true
+			}
+			n++
+			key := fmt.Sprintf("%s#map-branch-of-method-call[%d]", gname, n)
+			var bad *ast.ReturnStmt
+			ast.Inspect(ifs.Body, func(y ast.Node) bool {
+				if _, isLit := y.(*ast.FuncLit); isLit {
+					return false
+				}
+				r, ok := y.(*ast.ReturnStmt)
+				if !ok || bad != nil {
+					return true
+				}
+				guarded := false
+				for _, gd := range g.Guards(r) {
+					id, ok := ast.Unparen(gd.Cond).(*ast.Ident)
+					if !ok || !gd.Val || gd.Synth {
+						continue
+					}
+					if as, i := definingAssign(info, lit, info.ObjectOf(id)); as != nil && i == 1 && len(as.Rhs) == 1 {
+						if call, ok := ast.Unparen(as.Rhs[0]).(*ast.CallExpr); ok && isCallTo(info, call, extract) {
+							guarded = true
+						}
+					}
+				}
+				if !guarded {
+					bad = r
+				}
+				return true
+			})
+			if bad != nil {
+				c.Violation(key, bad.Pos(), "inside the branch that the generated method call takes for maps there is a return (line %d) that is not guarded by the successful extraction of a function from the entry: a map whose entry of that name is no function (or is missing) does not fall through to the method lookup, so {size: x, other: 2}.size() fails while member access, ~ and = still see the map", c.Fset.Position(bad.Pos()).Line)
+			} else {
+				c.OK(key, ifs.Pos(), "every return inside the map branch of the generated method call is guarded by the extraction of a function from the entry; otherwise the method lookup follows")
+			}
+			return true
+		})
+	}
+	if n == 0 {
+		c.Undecided("funcGen#map-branch-of-method-call", token.NoPos, "the closure-field branch of the generated method call was not found")
+	}
+}
